@@ -256,6 +256,12 @@ def _sweep_inputs(ctx):
     R = rolesmod.get(model)
     n = 0
     seen = set()
+    # clock / random reads that were executed while the service was being
+    # built (before the timer ever fires)
+    startup_sites = set()
+    for sp in model.paths("tap:makeService"):
+        for x, _ in all_events(sp, ("ext",)):
+            startup_sites.add(x["site"])
     for p, e, loops in each_event(model, ["timer"], ("call",)):
         if e["callee"] != R.sweep_all:
             continue
@@ -265,7 +271,7 @@ def _sweep_inputs(ctx):
                 bad = None
                 if x[0] == "call" and len(x) > 4 and isinstance(x[4], tuple):
                     site = x[4]
-                    if not (site[0] == mod.path and lo <= site[1] <= hi):
+                    if site in startup_sites:
                         bad = "%s read at %s:%d" % (x[1], site[0], site[1])
                 if x[0] in ("param",) or (x[0] == "unknown"):
                     bad = "the value %s" % show(x)[:40]
@@ -304,6 +310,17 @@ def _regdep(ctx):
             continue
         if e["k"] == "commit" and not e.get("was_dirty"):
             continue
+        if e["k"] == "raise":
+            # an exception that is caught right away (try: R[k] except KeyError)
+            # is control flow, not an observable event
+            flat = [x for x, _ in all_events(p)]
+            try:
+                i = next(j for j, x in enumerate(flat) if x is e)
+            except StopIteration:
+                i = None
+            if i is not None and i + 1 < len(flat) and flat[i + 1]["k"] == "catch" and \
+                    flat[i + 1]["cls"] == e["cls"]:
+                continue
         pol = {}
         for tt, v in pc_truth(e["pc"]).items():
             for x in walk(tt):
